@@ -163,7 +163,7 @@ impl<'a> Sp<'a> {
                     o.push_str("null");
                 } else if self.rng.chance(1, 8) {
                     self.feats.hit("yaml_tag_null");
-                    o.push_str("!!null ''");
+                    o.push_str("!!null ~");
                 } else {
                     o.push_str(forms[self.rng.below(forms.len())]);
                 }
